@@ -486,6 +486,8 @@ def check(pid, tier, seed):
             "modes": modes,
             "searched_for_failing_input": searched,
             "drift": drift,
+            "drift_modelled_by": {k: anchors.modelled_by(k) for k in drift},
+            "model_map_problems": anchors.map_problems(),
             "generator_scope": scope,
             "exhaustive": gen.exhaustive(pid, tier),
             "partial": gen.partial(pid),
